@@ -357,6 +357,7 @@ pub fn run_scenario(sc: &Value) -> Vec<Value> {
             "New" => {
                 sink = Shared::new(vec![]);
                 apply_sink_opts(&sink, sc);
+                apply_sink_opts(&sink, op);       // per-writer sink behaviour (short writes)
                 writer = Some(ManuallyDrop::new(ZipWriter::new(sink.clone())));
                 let m = base_event("New", &json!("ok"), "", &sink);
                 ex.ev(m);
